@@ -97,9 +97,6 @@ structure Inv (ml : Nat) (D : Durable) (s : Index) : Prop where
   entry : EntryOk s
   saved : s.savedVersion ≤ s.version
 
-/-- state right after `anda_db::index::Hnsw::new`: the empty index has been flushed -/
-def createD (mls : Nat) : Durable := { blobs := [], ids := some [], metaObj := some ⟨(0, 0), 1, [], 0, mls⟩ }
-def createS (mls : Nat) : Index := { version := 1, savedVersion := 1, maxLayers := mls }
 
 theorem inv_create (mls : Nat) : Inv (clampLayers mls) (createD mls) (createS mls) := by
   refine ⟨⟨⟨_, rfl, rfl⟩, ⟨_, rfl⟩, ?_⟩, rfl, ?_, ?_, ?_, ?_, ?_, Or.inl rfl, Nat.le_refl _⟩
